@@ -88,13 +88,23 @@ pub fn judge(rep: &mut Report, c: &Case) {
             // word errors quote the word (after the documented respellings), not its index
             if quoted.is_empty() { fail(rep, "no-word-quoted", String::new()); return }
             let shown = quoted[0].split(" => ").next().unwrap_or(quoted[0]);
-            let planted = c.fault.replace('\'', "ˈ").replace(',', "ˌ").replace(':', "ː").replace(';', "ː.");
+            // (the word is shown as the program reads it: ASCII shorthands respelt, precomposed letters split)
+            let planted = c.fault.replace('\'', "ˈ").replace(',', "ˌ").replace(':', "ː").replace(';', "ː.").replace('ã', "a\u{303}").replace('õ', "o\u{303}").replace('ɚ', "ə˞");
             if shown != planted { fail(rep, "quotes-another-word", format!("{shown:?} instead of {planted:?}")); return }
             if let Some(carets) = quoted.get(1) { let n = shown.chars().count(); for (col, ch) in carets.chars().enumerate() { if ch == '^' && col > n { fail(rep, "caret-outside-the-word", format!("caret at column {col}, word has {n} characters")); return } } }
             rep.nontrivial(hash64(&(&c.fault, c.at, &c.words)));
         }
     }
     if rep.samples.len() < 6 { let v = json!({"fault": c.fault, "kind": c.kind, "planted_at": [c.at.0 + 1, c.at.1 + 1], "error": kind, "formatted": text}); rep.sample(|| v); }
+}
+
+/// the fault itself and the same fault on a line that also carries characters which the program rewrites before lexing
+/// (precomposed letters that normalisation splits in two, the ASCII g) or which are wider than a byte - where column
+/// bookkeeping in a different unit, or against a rewritten copy of the line, would show
+fn variants(f: &str, from: char, decor: &[&str], r: &mut Rng) -> Vec<String> {
+    let mut v = vec![f.to_string()];
+    if f.contains(from) { let d = *r.pick(decor); v.push(f.replacen(from, d, 1)); }
+    v
 }
 
 pub fn explore(ctx: &Ctx, shard: usize, n: usize) -> Report {
@@ -106,7 +116,7 @@ pub fn explore(ctx: &Ctx, shard: usize, n: usize) -> Report {
         rep.obs("base_projects", 1);
         // rule faults at every (group, line) position
         for gi in 0..groups.len() { for li in 0..=groups[gi].len() {
-            for f in SYNTAX_FAULTS.iter() { let mut g2 = groups.clone(); g2[gi].insert(li, f.to_string()); judge(rep, &Case { groups: g2, words: words.clone(), into: into.clone(), from: from.clone(), kind: "rule-syntax".into(), at: (gi, li), fault: f.to_string() }); }
+            for f0 in SYNTAX_FAULTS.iter() { for f in variants(f0, 'a', &["ã", "ɚ", "õ", "ẽ"], r) { let mut g2 = groups.clone(); g2[gi].insert(li, f.clone()); judge(rep, &Case { groups: g2, words: words.clone(), into: into.clone(), from: from.clone(), kind: "rule-syntax".into(), at: (gi, li), fault: f }); } }
             for (f, w) in RUNTIME_FAULTS.iter() {
                 // a runtime fault needs the earlier rules not to have removed what it matches: it is judged on a project whose earlier lines are comments
                 let mut g2: Vec<Vec<String>> = groups.iter().map(|g| g.iter().map(|l| if l.trim().is_empty() { l.clone() } else { format!(";; {l}") }).collect()).collect();
@@ -115,11 +125,11 @@ pub fn explore(ctx: &Ctx, shard: usize, n: usize) -> Report {
             }
         } }
         for (list, faults, kind) in [(&from, &ALIAS_FAULTS_FROM[..], "alias-from"), (&into, &ALIAS_FAULTS_INTO[..], "alias-into")] {
-            for li in 0..=list.len() { for f in faults { let mut l2 = list.clone(); l2.insert(li, f.to_string());
+            for li in 0..=list.len() { for f0 in faults { for f in variants(f0, if kind == "alias-from" { 'a' } else { 'b' }, &["ã", "ɚɝ", "õ, ũ", "ỹ"], r) { let mut l2 = list.clone(); l2.insert(li, f.clone());
                 let (i2, f2) = if kind == "alias-from" { (into.clone(), l2) } else { (l2, from.clone()) };
-                judge(rep, &Case { groups: groups.clone(), words: words.clone(), into: i2, from: f2, kind: kind.into(), at: (0, li), fault: f.to_string() }); } }
+                judge(rep, &Case { groups: groups.clone(), words: words.clone(), into: i2, from: f2, kind: kind.into(), at: (0, li), fault: f }); } } }
         }
-        for wi in 0..=words.len() { for f in WORD_FAULTS.iter() { let mut w2 = words.clone(); w2.insert(wi, f.to_string()); judge(rep, &Case { groups: groups.clone(), words: w2, into: vec![], from: from.clone(), kind: "word".into(), at: (0, wi), fault: f.to_string() }); } }
+        for wi in 0..=words.len() { for f0 in WORD_FAULTS.iter() { for f in [f0.to_string(), format!("{}{f0}", *r.pick(&["ã", "ɚ", "gõ."]))] { let mut w2 = words.clone(); w2.insert(wi, f.clone()); judge(rep, &Case { groups: groups.clone(), words: w2, into: vec![], from: from.clone(), kind: "word".into(), at: (0, wi), fault: f }); } } }
     });
     let _ = (ctx, shard);
     rep
